@@ -201,7 +201,15 @@ def translate_v(M, va, ispriv, iswrite, size, wasaligned, want_attrs=False):
     mva = fcse(M, va)
     hyp = M.is_hyp()
     if hyp:
-        raise Skip('Hyp translation regime')
+        # PL2 regime: modelled with its MMU off only (flat map, Strongly-ordered whatever HCR.DC says, so a split unaligned access faults);
+        # HSCTLR.M = 1 (long-descriptor walk through HTTBR) is not modelled
+        if M.s.get('hsctlr', 0) & 1:
+            raise Skip('Hyp translation regime with HSCTLR.M = 1')
+        if mva != (va & 0xFFFFFFFF):
+            raise Skip('FCSE and Hyp mode')
+        if not wasaligned:
+            raise Abort('alignment', mva, iswrite, {'hyp': True})
+        return (mva, SO) if want_attrs else mva
     enabled = M.s['sctlr'] & 1
     if M.virt_ext() and not M.is_secure() and (M.s['hcr'] & 1):
         raise Skip('stage 2 translation')
@@ -251,7 +259,14 @@ LD_FS = {'translation': 0b000100, 'access_flag': 0b001000, 'permission': 0b00110
 def report_abort(M, ab):
     """DFSR/DFAR for a synchronous data abort on VMSA (B3.13, B4.1.52)"""
     if M.is_hyp():
-        raise Skip('Hyp-mode fault syndromes')
+        if ab.kind != 'alignment':
+            raise Skip('Hyp-mode fault syndromes')
+        # Data Abort taken from Hyp mode to Hyp mode: HSR.EC = 0x25, ISS = WnR : DFSC (alignment = 100001); HDFAR = address; DFSR / DFAR untouched
+        if not M.hooked:
+            raise NotImpl('TLBLookupCameFromCacheMaintenance')
+        M.write_hsr(0b100101, ((1 if ab.iswrite else 0) << 6) | 0b100001)
+        M.s['hdfar'] = ab.addr & M32
+        return
     if M.virt_ext() and (M.s.get('hcr', 0) >> 27) & 1 and ab.kind == 'alignment':
         raise Skip('alignment fault routed to Hyp mode (HCR.TGE)')
     addr = ab.addr & M32
